@@ -14,7 +14,7 @@ MANIFEST = {
             "the C code on every run by a lock-step walk of the model's state space in which every transition is also "
             "executed by the real scheduler (ASan build) and all scheduler state compared, plus threaded runs of the real "
             "drivers under seeded schedule perturbation (per-column release counters, thread counts, watchdog).",
-    "note": "Trusted: Coq kernel, extraction (ExtrOcamlBasic), the lock-step harness; the model treats one scheduler call as "
+    "note": "Error returns: a pthread_create that fails part-way is injected (ld --wrap, exact live-thread count through a trampoline): the library must end through its fatal-error path or return with every started worker terminated. Trusted: Coq kernel, extraction (ExtrOcamlBasic), the lock-step harness; the model treats one scheduler call as "
             "atomic w.r.t. the DONE store of other threads (each state cell is read once, monotone); sequentially "
             "consistent memory and weak fairness of the OS scheduler are assumed; termination of the real threads is "
             "observed (watchdog); the termination theorem is about the protocol model under weak fairness of the threads.",
